@@ -44,7 +44,7 @@ def run(ctx):
         gfi_hist.st_history(CFG_REGEN, kinds=REGEN_TOP, nops=(1, 2)).map(lambda c: dict(_with_bwd(c), family="regen")),
         gfi_hist.st_history(CFG_INDEX, kinds=INDEX_TOP, nops=(1, 2)).map(lambda c: dict(_with_bwd(c), family="index")),
     )
-    ctx.run_hypothesis(strat, chk, ctx.pick(9, 9), salt="main")
+    ctx.run_hypothesis(strat, chk, ctx.pick(6, 6), salt="main")
 
 
 def replay(ctx, case):
